@@ -141,6 +141,12 @@ def run(ctx, rep):
                     rep.check("C05.eof", "end of stream (Ok(None)) only when no samples are owed or the total is unknown", good, b.loc(st["sp"]),
                               "remaining == 0, or STREAMINFO declares no total",
                               "Decoder::read_frame can signal a clean end of stream while STREAMINFO still owes samples (truncation decoded silently); facts: %s" % fact_str(f))
+                    if f is not TOP and any(x[0] == "is" and x[1] == "Err" and "FrameHeader::read" in str(x[2]) for x in f):
+                        kindcmp = any(x[0] == "cmp" and x[1] == "Eq" and "Error::kind" in str(x[2]) + str(x[3]) for x in f)
+                        eofk = any(s2["rv"]["r"] == "agg" and s2["rv"].get("adt") == "std::io::ErrorKind" and s2["rv"].get("var") == "UnexpectedEof"
+                                   for pb in F.by_path.get(b.path, []) if pb.promoted is not None for bl2 in pb.blocks for s2 in bl2["s"])
+                        rep.check("C05.eof", "a header read error ends the stream cleanly only if it is an I/O error of kind UnexpectedEof", kindcmp and eofk, b.loc(st["sp"]), "",
+                                  "Decoder::read_frame turns a frame-header read error other than UnexpectedEof into a clean end of stream: a failing or damaged source is decoded as a shorter stream; facts: %s" % fact_str(f))
         rep.floor("C05.eof", "Ok(None) returns of read_frame", nn, 2)
 
     # ---- C05.total (KF04) --------------------------------------------------------------
